@@ -13,26 +13,30 @@ EXTENDS FaceLife
 
 Log == ndJsonDeserialize(IOEnv.TRACE)
 
+CONSTANT KeyByOpts   \* TRUE: results are compared per (options, source) - history independence (C08);
+                     \* FALSE: across all options and sources as well (C10)
+
 VARIABLES l,        \* next event
           incall,   \* operation in progress ("" = none)
           outb,     \* outstanding buffers: set of <<id, tag>>
-          tkind     \* font kind of the current history
-tvars == <<vars, l, incall, outb, tkind>>
+          tkind,    \* font kind of the current history
+          seen      \* results observed so far: function from call keys to result hashes (purity oracle)
+tvars == <<vars, l, incall, outb, tkind, seen>>
 
 Ev == Log[l]
 IsEvent(e) == l <= Len(Log) /\ Ev.e = e /\ l' = l + 1
 
-TInit == Init /\ l = 1 /\ incall = "" /\ outb = {} /\ tkind = "good"
+TInit == Init /\ l = 1 /\ incall = "" /\ outb = {} /\ tkind = "good" /\ seen = << >>
 
 \* a new history: the previous one must have given everything back
 TReset ==
   /\ IsEvent("Reset") /\ incall = "" /\ outb = {} /\ phase \in {"none", "dead"}
-  /\ phase' = "none" /\ opts' = 0 /\ kind' = "good" /\ held' = {} /\ nameDone' = FALSE
+  /\ phase' = "none" /\ opts' = 0 /\ kind' = "good" /\ src' = "ops" /\ held' = {} /\ nameDone' = FALSE
   /\ nfonts' = 0 /\ nsegs' = 0 /\ nfvals' = 0 /\ afterMake' = 0 /\ hist' = << >>
-  /\ tkind' = Ev.kind /\ UNCHANGED <<incall, outb>>
+  /\ tkind' = Ev.kind /\ UNCHANGED <<incall, outb, seen>>
 
 TCall == /\ IsEvent("Call") /\ incall = "" /\ incall' = Ev.op
-         /\ UNCHANGED <<vars, outb, tkind>>
+         /\ UNCHANGED <<vars, outb, tkind, seen>>
 
 \* get_table: during gr_make_face; afterwards only for the name table, once, and never with gr_face_preloadAll
 GetAllowed == \/ incall = "make_face"
@@ -40,19 +44,19 @@ GetAllowed == \/ incall = "make_face"
 TGet == /\ IsEvent("Get") /\ incall # "" /\ GetAllowed
         /\ outb' = IF Ev.buf >= 0 THEN outb \cup {<<Ev.buf, Ev.tag>>} ELSE outb
         /\ \A b \in outb : b[1] # Ev.buf                                   \* fresh id
-        /\ UNCHANGED <<vars, incall, tkind>>
+        /\ UNCHANGED <<vars, incall, tkind, seen>>
 
 \* release_table: exactly once per buffer
 TRel == /\ IsEvent("Rel") /\ incall # ""
         /\ \E b \in outb : b[1] = Ev.buf /\ outb' = outb \ {b}
-        /\ UNCHANGED <<vars, incall, tkind>>
+        /\ UNCHANGED <<vars, incall, tkind, seen>>
 
 Tags(S) == {b[2] : b \in S}
 
 \* the call returns: its net effect is the FaceLife action of that operation
 TRet ==
   /\ IsEvent("Ret") /\ incall = Ev.op
-  /\ CASE Ev.op = "make_face"    -> MakeFace(Ev.arg, tkind) /\ (phase' = "live") = (Ev.ok = 1)
+  /\ CASE Ev.op = "make_face"    -> MakeFace(Ev.arg % 8, tkind, IF Ev.arg >= 8 THEN "file" ELSE "ops") /\ (phase' = "live") = (Ev.ok = 1)
        [] Ev.op = "label"        -> LabelQuery
        [] Ev.op = "face_query"   -> FaceQuery
        [] Ev.op = "featval"      -> FeatVal
@@ -60,17 +64,24 @@ TRet ==
        [] Ev.op = "make_font"    -> MakeFont(Ev.arg)
        [] Ev.op = "destroy_font" -> DestroyFont
        [] Ev.op = "make_seg"     -> MakeSeg(Ev.arg)
+       [] Ev.op = "shape"        -> ShapeOnce(Ev.arg)
        [] Ev.op = "query_seg"    -> QuerySeg
        [] Ev.op = "justify"      -> JustifySeg
        [] Ev.op = "destroy_seg"  -> DestroySeg
        [] Ev.op = "destroy_face" -> DestroyFace
-  /\ Tags(outb) = held'                       \* what is still borrowed is what the protocol says
-  /\ Cardinality(outb) = Cardinality(held')   \* ... one buffer per table
+  /\ (src' = "ops" => /\ Tags(outb) = held'                       \* what is still borrowed is what the protocol says
+                       /\ Cardinality(outb) = Cardinality(held'))  \* ... one buffer per table
+  \* purity: the result of a call is a function of its arguments only (C08), and not of the face options or
+  \* the table source either (C10)
+  /\ IF Ev.h = "" THEN UNCHANGED seen
+     ELSE LET key == <<tkind, Ev.op, Ev.key, IF KeyByOpts THEN opts' ELSE -1, IF KeyByOpts THEN src' ELSE "">> IN
+          IF key \in DOMAIN seen THEN seen[key] = Ev.h /\ UNCHANGED seen
+          ELSE seen' = [k \in DOMAIN seen \cup {key} |-> IF k = key THEN Ev.h ELSE seen[k]]
   /\ incall' = "" /\ UNCHANGED <<outb, tkind>>
 
 \* end of a history: no library allocation is left
 TQuiesce == /\ IsEvent("Quiesce") /\ incall = "" /\ outb = {} /\ Ev.live = 0
-            /\ UNCHANGED <<vars, incall, outb, tkind>>
+            /\ UNCHANGED <<vars, incall, outb, tkind, seen>>
 
 TNext == TReset \/ TCall \/ TGet \/ TRel \/ TRet \/ TQuiesce
 TSpec == TInit /\ [][TNext]_tvars
